@@ -75,7 +75,7 @@ def handleRace (args : List String) : String :=
           let s0 := run (init ⟨ip, port⟩ maxp (tcp = "1")) ops
           if s0.latchOn ∧ (s0.expected = 0 ∨ ssrc = s0.expected) then
             let bits := (sched.toList ++ "rsrsrsrsrsrsrsrsrsrs".toList).map (fun c => c == 'r')
-            let y := runSched (recvCrit a ssrc seq ts m) A { st := s0, r := .start, a := .start } bits
+            let y := runSched (recvCrit a ssrc seq ts m) A (Sys.init s0) bits
             if rDone y.r ∧ aDone y.a then (showSt y.st "-" none).1 else "not-finished"
           else "race-model-needs-latching-and-expected-ssrc-rtp"
         | none => "bad-api"
